@@ -20,6 +20,7 @@ type mutCtx struct {
 
 func (x *mutCtx) intn(lo, hi int, l string) int { return rapid.IntRange(lo, hi).Draw(x.t, l) }
 func (x *mutCtx) pct(p int, l string) bool      { return rapid.IntRange(0, 99).Draw(x.t, l) < p }
+
 // rarely is true with probability 2^-bits (fair coin flips: rapid's integer
 // generators favour small values, so pct(5) fires far more often than 5%).
 func (x *mutCtx) rarely(bits int, l string) bool {
